@@ -22,6 +22,7 @@ import VaxisModel.Lemmas.VxfwBodyX
 import VaxisModel.Lemmas.VxfwBodyRun
 import VaxisModel.Lemmas.VxfwBodyTree
 import VaxisModel.Lemmas.VxfwBodyAll
+import VaxisModel.Lemmas.VxfwBodySel
 import VaxisModel.Props.C15
 import VaxisModel.Props.C15Err
 
@@ -32,14 +33,17 @@ open VaxisModel.Spec.Routing VaxisModel.Lemmas.Vxfw
 
 /-- The translator recognised every statement and expression of the twelve translated bodies (round 4: also
     `mouseHandler.update` with its labelled `continue`s, `App.handleCommand` with its type switch, and the tree walks
-    `hitTest`, `containsPoint`, `childHasFocus`, `findPath`). -/
+    `hitTest`, `containsPoint`, `childHasFocus`, `findPath`) and of the two arms of the `select` in `App.Run` that are executed
+    (`runEventBlock`, `runFrameBlock`; the `select` itself, the channel receive, the timer, `defer` and the prologue of `Run` are
+    outside the translated subset and not claimed here). -/
 theorem fully_recognised :
     (fullyRecognised Gen.VxfwBodies.focusHandleEvent && fullyRecognised Gen.VxfwBodies.mouseHandleEvent &&
      fullyRecognised Gen.VxfwBodies.focusWidget && fullyRecognised Gen.VxfwBodies.updatePath &&
      fullyRecognised Gen.VxfwBodies.mouseExit && fullyRecognised Gen.VxfwBodies.mouseEnter &&
      fullyRecognised Gen.VxfwBodies.mouseUpdate && fullyRecognised Gen.VxfwBodies.handleCommand &&
      fullyRecognised Gen.VxfwBodies.hitTest && fullyRecognised Gen.VxfwBodies.containsPoint &&
-     fullyRecognised Gen.VxfwBodies.childHasFocus && fullyRecognised Gen.VxfwBodies.findPath) = true := by decide
+     fullyRecognised Gen.VxfwBodies.childHasFocus && fullyRecognised Gen.VxfwBodies.findPath &&
+     fullyRecognised Gen.VxfwBodies.runEventBlock && fullyRecognised Gen.VxfwBodies.runFrameBlock) = true := by decide
 
 /-- The regenerated body of `focusHandler.handleEvent` is the one the execution lemmas are about. -/
 theorem body_as_expected : Gen.VxfwBodies.focusHandleEvent = Lemmas.VxfwBodyExpected.focusHandleEvent := by decide +kernel
@@ -522,5 +526,63 @@ theorem run_all_bodies_eq_model (e : EOracle) (fuel : Nat) (root : Id) (t0 : STr
 theorem run_all_bodies_eq_run_bodies (e : EOracle) (fuel : Nat) (root : Id) (t0 : STree) (steps : List Step) :
     bRunAll genBodies genCallees e fuel root t0 steps = bRun genBodies e fuel root t0 steps := by
   rw [run_all_bodies_eq_model, run_bodies_eq_model]
+
+/-! ## Round 4: the two arms of the `select` in `App.Run` executed from their statement lists -/
+
+/-- The regenerated statement lists of the two arms are the ones the execution lemmas are about. -/
+theorem run_blocks_as_expected : Gen.VxfwBodies.runEventBlock = Lemmas.VxfwBodyExpected.runEventBlock ∧
+    Gen.VxfwBodies.runFrameBlock = Lemmas.VxfwBodyExpected.runFrameBlock := by decide +kernel
+
+theorem genBodies_eq : genBodies = Lemmas.VxfwBodyRun.expB := by
+  unfold genBodies Lemmas.VxfwBodyRun.expB
+  rw [body_as_expected, mouse_body_as_expected, mouse_update_body_as_expected, hover_bodies_as_expected.1,
+    hover_bodies_as_expected.2, update_path_body_as_expected, Lemmas.VxfwBody.parse_fhe, Lemmas.VxfwBody.parse_mhe,
+    Lemmas.VxfwBodyX.parse_mu, Lemmas.VxfwBody.parse_mx, Lemmas.VxfwBody.parse_me, Lemmas.VxfwBodyX.parse_up]
+
+/-- **The event arm of `Run`, executed from its regenerated statement list, IS `eRunEvent` followed by the `shouldQuit` test**:
+    the type switch over the event (Resize / Redraw set `redraw`; Mouse → `mh.handleEvent`; FocusIn → `mh.mouseEnter(a, w)`;
+    FocusOut → `mh.mouse = nil` then `mh.mouseExit`; Key and every other event (`default`) → `a.fh.handleEvent`), every callee run
+    from ITS body, `if err != nil { return err }` in each arm, then `if a.shouldQuit { return nil }`.  The arm ends with
+    `ret true` iff the model returns the error, `ret false` iff `shouldQuit` is set, else the loop goes on.  Every oracle,
+    failing-call set, state, event. -/
+theorem run_event_body_eq_model (e : EOracle) (fuel : Nat) (s : St) (ev : RunEv) :
+    runEventBlock (parseBody Gen.VxfwBodies.runEventBlock) (rCallees genBodies genCallees e fuel) s ev =
+      some ((eRunEvent e (fuel + 1) s ev).1, Lemmas.VxfwBodySel.evCtl (eRunEvent e (fuel + 1) s ev)) := by
+  rw [run_blocks_as_expected.1, Lemmas.VxfwBodySel.parse_re, genBodies_eq, genCallees_eq]
+  exact Lemmas.VxfwBodySel.re_exec e (fuel + 1) _ (Lemmas.VxfwBodySel.good_rcallees e fuel) s ev
+
+/-- **The frame arm of `Run`, executed from its regenerated statement list, IS `eRunFrame`**: `if !a.redraw { continue }`,
+    `a.redraw = false`, layout (the widget's `Draw` is the oracle `t1`), `mh.update(a, s)` with its error returned, a second
+    layout (`t2`) iff a hover handler asked for a redraw, `s.render` (the children sorted in place), `a.refresh` / `a.debug` reset,
+    `a.fh.updatePath(a, s)` on the SORTED tree, and last `mh.lastFrame = s` — callees run from their bodies with THEIR callees run
+    from theirs.  State and returned error for every oracle, failing-call set, state and pair of trees; the arm ends with `cont` iff
+    nothing was to redraw. -/
+theorem run_frame_body_eq_model (e : EOracle) (fuel : Nat) (s : St) (t1 t2 : STree) :
+    runFrameBlock (parseBody Gen.VxfwBodies.runFrameBlock) (rCallees genBodies genCallees e fuel) s t1 t2 =
+      some ((eRunFrame e (fuel + 1) s t1 t2).1, Lemmas.VxfwBodySel.frCtl s (eRunFrame e (fuel + 1) s t1 t2)) := by
+  rw [run_blocks_as_expected.2, Lemmas.VxfwBodySel.parse_rf, genBodies_eq, genCallees_eq]
+  exact Lemmas.VxfwBodySel.rf_exec e (fuel + 1) _ (Lemmas.VxfwBodySel.good_rcallees e fuel) s t1 t2
+
+/-- **The `Run` loop over the EXECUTED arms** (`rRun`: the transcribed prologue — focus handler init, Init dispatch by the executed
+    `handleEvent` body, first layout —, then for every step the executed event arm or the executed frame arm) **is `eRun`**, over
+    every history, oracle and failing-call set: no transcribed dispatcher code is left in the loop.  Hence equal to `bRun` /
+    `bRunAll`, and every clause of `c15_over_executed_bodies` holds of it. -/
+theorem run_select_bodies_eq_model (e : EOracle) (fuel : Nat) (root : Id) (t0 : STree) (steps : List Step) :
+    rRun (parseBody Gen.VxfwBodies.runEventBlock) (parseBody Gen.VxfwBodies.runFrameBlock) genBodies genCallees e fuel root t0 steps =
+      some (eRun e (fuel + 1) root t0 steps) := by
+  rw [run_blocks_as_expected.1, run_blocks_as_expected.2, Lemmas.VxfwBodySel.parse_re, Lemmas.VxfwBodySel.parse_rf, genBodies_eq,
+    genCallees_eq]
+  exact Lemmas.VxfwBodySel.rRun_eq e fuel root t0 steps
+
+/-- Non-vacuity: a key whose handler quits ends the executed event arm with `return nil`; a frame with nothing to redraw is a
+    `continue`; a frame after a Resize draws once and stores the sorted tree. -/
+example :
+    let o : Oracle := ⟨fun _ ev _ _ => if ev = .key 1 then .quit else .nil, fun _ => false⟩
+    let t : STree := .node 0 9 9 [(0, 0, 1, .node 1 2 2 []), (3, 3, 0, .node 2 2 2 [])]
+    let C := rCallees genBodies genCallees (e0 o) 2
+    ((runEventBlock (parseBody Gen.VxfwBodies.runEventBlock) C (St.init 0) (.key 1)).map (fun r => (r.1.quit, r.2)) = some (true, .ret false)) ∧
+    ((runFrameBlock (parseBody Gen.VxfwBodies.runFrameBlock) C (St.init 0) t t).map (·.2) = some .cont) ∧
+    ((runFrameBlock (parseBody Gen.VxfwBodies.runFrameBlock) C { St.init 0 with redraw := true } t t).map
+        (fun r => (r.1.redraw, r.1.lastFrame.ch.map (·.2.2.2.id), r.2)) = some (false, [2, 1], .norm)) := by decide +kernel
 
 end VaxisModel.Props.C15Body
